@@ -67,6 +67,18 @@ FastEqualsDef == phase = 1 => \A u \in Grid :
    /\ BasisRow(U, Deg(U), u) = BasisRowDef(U, Deg(U), u)
    /\ Eval(Poly(U, P), u) = EvalDef(Poly(U, P), u)
    /\ Eval(Curve(U, P, WGen1(Npts(U))), u) = EvalDef(Curve(U, P, WGen1(Npts(U))), u)
+RatGrid == {Q(n, d) : n \in {-7, -3, -1, 0, 1, 2, 5, 181, -179, 32749}, d \in {1, 2, 3, 7, 173, 32719}}
+Big == <<2147483647, 1>>
+JavaAgreesWithDef == phase = 1 =>
+   /\ \A a, b \in RatGrid \cup {NaR} :
+         /\ Lt(a, b) = LtDef(a, b) /\ Le(a, b) = LeDef(a, b)
+         /\ Neg(a) = NegDef(a)
+         /\ Add(a, b) = AddDef(a, b) /\ Sub(a, b) = SubDef(a, b) /\ Mul(a, b) = MulDef(a, b)
+         /\ (b[1] # 0 => Div(a, b) = DivDef(a, b))
+   /\ Add(Big, One) = NaR /\ Mul(Big, Two) = NaR /\ Mul(Big, Half) = <<2147483647, 2>>
+   /\ Sub(Add(Big, One), One) = NaR /\ Lt(Big, Add(Big, Neg(One)))  = FALSE /\ Lt(Add(Big, Neg(One)), Big)
+   /\ Mul(<<65536, 1>>, <<65536, 1>>) = NaR /\ Div(<<65536, 1>>, <<1, 65536>>) = NaR
+   /\ Mul(<<65536, 3>>, <<3, 65536>>) = One
 ReparamInvariant == phase = 1 => \A s \in {Two, Q(1, 3)}, a \in {R(-3), Half} :
      LET V == [i \in DOMAIN U |-> Add(Mul(U[i], s), a)] IN
        \A u \in Grid : Eval(Poly(V, P), Add(Mul(u, s), a)) = Eval(Poly(U, P), u)
